@@ -173,7 +173,20 @@ type ifaceListener[E boltz.Entity] struct {
 }
 
 func (l *ifaceListener[E]) HandleEntityEvent(entity E) {
-	l.rec.Add(Event{Store: l.store, Style: "event-listener", Type: l.typ, ID: entity.GetId(), Info: entInfo(entity)})
+	l.rec.Add(Event{Store: l.store, Style: "event-listener", Type: l.typ, ID: safeID(entity), Info: entInfo(entity)})
+}
+
+// safeID tolerates a nil entity handed to a listener (recorded as such, so the comparison fails instead of the process)
+func safeID(e boltz.Entity) (id string) {
+	defer func() {
+		if recover() != nil {
+			id = "<nil entity>"
+		}
+	}()
+	if e == nil {
+		return "<nil entity>"
+	}
+	return e.GetId()
 }
 
 var eventTypes = []struct {
@@ -185,13 +198,13 @@ func installOn[E boltz.Entity](name string, st *boltz.BaseStore[E], rec *Recorde
 	for _, et := range eventTypes {
 		et := et
 		st.AddListener(func(e boltz.Entity) {
-			rec.Add(Event{Store: name, Style: "listener", Type: et.name, ID: e.GetId(), Info: entInfo(e)})
+			rec.Add(Event{Store: name, Style: "listener", Type: et.name, ID: safeID(e), Info: entInfo(e)})
 		}, et.t)
 		st.AddEntityIdListener(func(id string) {
 			rec.Add(Event{Store: name, Style: "id-listener", Type: et.name, ID: id})
 		}, et.t)
 		st.AddEntityEventListenerF(func(e E) {
-			rec.Add(Event{Store: name, Style: "event-listener-f", Type: et.name, ID: e.GetId(), Info: entInfo(e)})
+			rec.Add(Event{Store: name, Style: "event-listener-f", Type: et.name, ID: safeID(e), Info: entInfo(e)})
 		}, et.t)
 		st.AddEntityEventListener(&ifaceListener[E]{store: name, typ: et.name, rec: rec}, et.t)
 	}
